@@ -13,8 +13,34 @@ _N = [0]
 
 
 @st.composite
+def cond_programs(draw):
+    """conditions (flat and nested) whose members fire one after the other, some before the waiter starts"""
+    nev = draw(st.integers(2, 5))
+    waiters = []
+    phases = [1, 2, 3]
+    for w in range(draw(st.integers(1, 2))):
+        c = {'op': 'cond', 'kind': draw(st.sampled_from(['any', 'all'])),
+             'evs': draw(st.lists(st.integers(0, nev - 1), min_size=0, max_size=3, unique=True)),
+             'sub': [{'kind': draw(st.sampled_from(['any', 'all'])),
+                      'evs': draw(st.lists(st.integers(0, nev - 1), min_size=1, max_size=3, unique=True))}
+                     for _ in range(draw(st.integers(0, 2)))]}
+        steps = [{'op': 'timeout', 'd': draw(st.integers(0, 3))}] if draw(st.booleans()) else []
+        waiters.append({'name': 'p%d' % w, 'phase': phases[w], 'steps': steps + [c, {'op': 'timeout', 'd': 1}]})
+    order = draw(st.permutations(list(range(nev))))
+    trig = []
+    for k in order:
+        trig.append({'op': 'succeed', 'ev': k, 'v': draw(st.sampled_from([None, 0, 'x', 5]))})
+        if draw(st.integers(0, 2)):
+            trig.append({'op': 'timeout', 'd': draw(st.integers(1, 2))})
+    procs = waiters + [{'name': 'p9', 'phase': 7, 'steps': trig}]
+    return {'nev': nev, 'nflags': 0, 'procs': procs, 't0': 0, 'callbacks': [], 'watch': []}
+
+
+@st.composite
 def programs(draw, tier):
     big = tier == 'thorough'
+    if draw(st.integers(0, 6)) == 0:
+        return draw(cond_programs())
     nev = draw(st.integers(1, 5))
     nflags = 2
     nproc = draw(st.integers(1, 5 if big else 4))
@@ -41,7 +67,12 @@ def programs(draw, tier):
                 out.append({'op': 'fail', 'ev': k, 'x': xid[0]})
             elif r < 14:
                 evs = draw(st.lists(st.integers(0, nev - 1), min_size=0, max_size=3, unique=True))
-                out.append({'op': 'cond', 'kind': draw(st.sampled_from(['any', 'all'])), 'evs': evs})
+                c = {'op': 'cond', 'kind': draw(st.sampled_from(['any', 'all'])), 'evs': evs}
+                if draw(st.integers(0, 2)) == 0:      # nested condition, e.g. (a | b) & c
+                    c['sub'] = [{'kind': draw(st.sampled_from(['any', 'all'])),
+                                 'evs': draw(st.lists(st.integers(0, nev - 1), min_size=1, max_size=3, unique=True))}
+                                for _ in range(draw(st.integers(1, 2)))]
+                out.append(c)
             elif r < 16 and me is not None and len(names) > 1:
                 out.append({'op': 'interrupt', 'proc': draw(st.sampled_from([n for n in names if n != me])),
                             'cause': draw(st.sampled_from([None, 'c1', 5]))})
@@ -178,8 +209,8 @@ class C18(Check):
                             match = (isinstance(cand[3], tuple) and cand[3][0] == 'cond'
                                      and spy.cond_ok(cand[3][1], v[1], t))
                             if cand[3] and isinstance(cand[3], tuple) and not match:
-                                out.fail('condition', pre + 'members', '%s step %d: condition value %r not allowed at t=%r (members %r)' % (
-                                    name, i, cand[3], t, [(m.eid, m.state, m.time) for m in v[1].members]))
+                                out.fail('condition', pre + 'members', '%s step %d: condition value %r not allowed at t=%r (leaves %r)' % (
+                                    name, i, cand[3], t, [(m.eid, m.state, m.time) for m in spy.leaves(v[1])]))
                                 ok = False
                                 break
                         else:
